@@ -334,7 +334,7 @@ def run_case(model, case):
             compared += 1
     except (Undefined, ArithmeticError, ireval.Unsupported) as e:
         return "skipped", [], compared
-    return "ok", fails[:3], compared
+    return "ok", fails[:10], compared
 
 
 def check_error_model(m2, em):
@@ -409,7 +409,7 @@ def check_error_model(m2, em):
             # other error models: the observation without residual error is unchanged in eps-free evaluation
             if not math.isfinite(f0):
                 fails.append(f"{em}: Y is not finite at eps = 0")
-    return fails[:2]
+    return fails[:10]
 
 
 def check_absorption(m2, a):
@@ -479,7 +479,7 @@ def run_shard(shard, tier):
         if status == "ok" and compared and not fails:
             res["distinct_nontrivial"] += 1
             res["traces_validated_against_impl"] += 1
-        for f in fails[:1]:
+        for f in fails[:10]:
             res["violations"].append({"history": [hist[0], list(hist[1])], "case": list(case),
                                       "what": f"[{hist[0]}{''.join(' -> ' + x for x in hist[1])} : {' '.join(map(str, case))}] {f}",
                                       "class": f"{case[0]}:{f[:50]}"})
